@@ -172,6 +172,11 @@ def run(tier="quick", seed=0):
             samples.append(trace[:6])
         if bad:
             failures.append({"key": "doc:" + mode, "description": bad, "script": script_header() + f"sys.path.insert(0, '/verif')\nfrom pybound.c05 import scenario\nbad, trace = scenario({s}, {mode!r})\nassert not bad, bad\n"})
+    from .fsharness import KNOWN_SEEN, probe_known
+    probe_known()
+    for k in sorted(KNOWN_SEEN):
+        if k.startswith("dep:"):
+            failures.append({"key": k, "description": "known finding re-observed", "script": ""})
     return {"scope": "1-3 jobs + the project document, 1-3 handles each (same / freshly opened), 4-12 random mapping operations (item/attribute set, del, update, setdefault, pop, clear, reset, "
                      "nested dict and list mutation) over 10 JSON values; run unbuffered, fully inside signac.buffered() (capacities 0, 1, 64, default) and with nested buffered sub-blocks; "
                      "resets that trigger dependency findings F23/F24 are excluded",
